@@ -115,3 +115,14 @@ Print Assumptions C12_path_cover.
 Check bits_state_hyps.
 Check log_encode_substitute_nonvacuous.
 Print Assumptions log_encode_substitute_nonvacuous.
+
+
+(* the tag of the registered binaries is `id as i64` (ids >= 2^63 give negative subscripts): it still
+   identifies the encoded variable among all u64 ids *)
+Theorem C12_tag_identifies : forall n m : N,
+  (n < 18446744073709551616)%N -> (m < 18446744073709551616)%N -> as_i64 n = as_i64 m -> n = m.
+Proof.
+  intros n m Hn Hm. unfold as_i64.
+  destruct (Z.ltb_spec (Z.of_N n) 9223372036854775808), (Z.ltb_spec (Z.of_N m) 9223372036854775808); lia.
+Qed.
+Print Assumptions C12_tag_identifies.
